@@ -183,6 +183,14 @@ func (o *objectImpl) SetProperty(name value.Value, newValue value.Value) error {
 		return fmt.Errorf("invalid signature: %s", err)
 	}
 	data := buf.Bytes()
+	// refuse a value which is not of the declared type.
+	for _, property := range o.meta.Properties {
+		if property.Name == nameStr && property.Signature != sig &&
+			property.Signature != "("+sig+")" {
+			return fmt.Errorf("property %s: invalid type %s, expecting %s",
+				nameStr, sig, property.Signature)
+		}
+	}
 	err = o.onPropertyChange(nameStr, data)
 	if err != nil {
 		return err
